@@ -139,7 +139,7 @@ func run(c *mon.Ctx) {
 	// the checksum is a function of its argument whoever else is computing one at the same time: several
 	// goroutines, each with its own strings, each result compared with the reference
 	c.Floor("concurrent.calls", 20000)
-	c.Stream("concurrent-callers", c.N(4, 200), func(i int, r *gen.Rand) {
+	c.Stream("concurrent-callers", c.N(8, 200), func(i int, r *gen.Rand) {
 		const G, N = 8, 1500
 		prev := runtime.GOMAXPROCS(4)
 		defer runtime.GOMAXPROCS(prev)
@@ -306,6 +306,68 @@ func run(c *mon.Ctx) {
 				c.Fail("crc:emitted-scte35-second-encoding-unchanged", "a change made through "+edits+" left the next encoding unchanged", wit{Input: mon.Hex(sec2)})
 			}
 		}
+	})
+	// the emitters from several goroutines at once, each with a PMT / a message of its own: every emitted section
+	// has a zero checksum
+	c.Stream("concurrent-emitters", c.N(8, 200), func(i int, r *gen.Rand) {
+		c.Concurrent("sections emitted by FilterPMTPacketsToPids / UpdateData", 8, 1500, r, func(q *gen.Rand) string {
+			p := ref.GenPMT(q, 2+q.Intn(10))
+			pay := append(ref.PointerPrefix(q.PickInt([]int{0, 0, 1, 7})), p.Section()...)
+			const pmtPID = 0x31
+			pk, _ := ref.Packetise(pmtPID, q.Intn(16), pay, ref.RandChunks(q, 1+len(pay)/90), q.Bool())
+			var in []*packet.Packet
+			for k := range pk {
+				x := packet.Packet(pk[k])
+				in = append(in, &x)
+			}
+			seen := map[int]bool{}
+			var keep []int
+			for _, st := range p.Streams {
+				if !seen[st.PID] && st.PID != pmtPID && q.Intn(2) == 0 {
+					keep = append(keep, st.PID)
+				}
+				seen[st.PID] = true
+			}
+			if len(keep) > 0 && !seen[pmtPID] {
+				out, err := psi.FilterPMTPacketsToPids(in, keep)
+				if err != nil || len(out) == 0 {
+					return fmt.Sprintf("filtering a %d-packet PMT to PIDs it lists failed: %v", len(in), err)
+				}
+				var got []byte
+				for _, o := range out {
+					off := 4
+					if o[3]&0x20 != 0 {
+						off += 1 + int(o[4])
+					}
+					if off < 188 {
+						got = append(got, o[off:]...)
+					}
+				}
+				if len(got) < 4 || 1+int(got[0])+3 > len(got) {
+					return "the filtered packets do not hold a section header"
+				}
+				g := got[1+int(got[0]):]
+				if l := 3 + (int(g[1]&0x0f)<<8 | int(g[2])); l > len(g) || ref.CRC32MPEG2(g[:l]) != 0 {
+					return fmt.Sprintf("the section emitted by FilterPMTPacketsToPids (%d bytes announced, %d emitted) does not have a zero CRC-32/MPEG-2", l, len(g))
+				}
+			}
+			s := scte35.CreateSCTE35()
+			ts := scte35.CreateTimeSignalCommand()
+			ts.SetHasPTS(true)
+			ts.SetPTS(gots.PTS(q.U33()))
+			s.SetCommandInfo(ts)
+			d := scte35.CreateSegmentationDescriptor()
+			d.SetEventID(q.Uint32())
+			d.SetTypeID(0x34)
+			d.SetUPIDType(0x0c)
+			d.SetUPID(q.Bytes(q.Intn(40)))
+			s.SetDescriptors([]scte35.SegmentationDescriptor{d})
+			if sec := s.UpdateData(); len(sec) < 4 || ref.CRC32MPEG2(sec) != 0 {
+				return "the section emitted by UpdateData does not have a zero CRC-32/MPEG-2"
+			}
+			return ""
+		})
+		c.Class("concurrent-emitters")
 	})
 	c.Floor("emitted_scte35.second_encoding_after_handle_edit", 500)
 	c.Floor("emitted_pmt.multi_packet", 500)
